@@ -57,6 +57,21 @@ def cases(tier, seed):
         for t in ['$%d' % k for k in range(0, 15)] + ['<$10>', '$1-$10-$2', '$10$1', '$100', '$011', '[$12|$13]']:
             add('$replace("abcdefghijklmno", /%s/, "%s")' % (pat, t), None, ('many-groups',))
         add('$match("abcdefghijklmno", /%s/).groups' % pat, None, ('many-groups',))
+    # the same text matched at several positions with different captures (anchors, word boundaries, alternation order)
+    pdp = ['(^a)|(a)', '(a$)|(a)', '(\\ba)|(a)', '(^.)|(.)', '(a)|(^a)', '(?m)(^a)|(a)', '(a)(?:$)|(a)', '(^)?a', '(a)?(^a)?a', '(x)?a', '(a\\b)|(a)', '(?:(^)|(-))a', '((^a)|a)', '(a)|(b)', '(^ab)|(a)(b)', '(.)(?:(\\b)|(.))']
+    subj = ['aa', 'aaa', 'a a a', 'a-a', 'a\na', 'aXa', 'abab', 'ab ab', '-a-a', 'a']
+    tpls = ['[$1|$2]', '$1-$2', '<$2$1>', '$1', '$2', '($1)($2)($3)', '$0:$1', '$3$2$1$0']
+    for pat, sj, tp in itertools.product(pdp, subj, tpls):
+        if tier == 'quick' and rng.random() < 0.75:
+            continue
+        pat1 = pat.replace('\\\\', '\\')
+        fl = 'm' if pat1.startswith('(?m)') else ''
+        pat1 = pat1.replace('(?m)', '')
+        add('$replace("%s", /%s/%s, "%s")' % (sj, pat1, fl, tp), None, ('position-captures',))
+        if rng.random() < 0.3:
+            add('$replace("%s", /%s/%s, "%s", %d)' % (sj, pat1, fl, tp, rng.randint(1, 3)), None, ('position-captures',))
+            add('$match("%s", /%s/%s).groups' % (sj, pat1, fl), None, ('position-captures',))
+            add('$replace("%s", /%s/%s, function($m){"[" & $join($m.groups, "|") & "]"})' % (sj, pat1, fl), None, ('position-captures',))
     add('$replace("abcdefg acdefg", /((a)(b)?)((c)|(x))(d)(e)(f)(g)/, "[$10$3]")', None, ('many-groups',))
     # literal handling
     for e in ['//', '/(/', '/[a/', '/a/x', '/a\\/b/', '$match("a/b", /a\\/b/)', '$match("AbC", /b/i)', '$match("a\nb", /a.b/s)', '$match("a\nb", /^b/m)', '$match("a\nb", /^b/)',
